@@ -120,19 +120,175 @@ theorem C07_in_order_views (v : View) (h : viewOk .top v = true) (done0 : List F
 
 /-! ## out-of-order streaming: statements (OPEN) -/
 
-/-- text hygiene: no sync or fallback string of the program contains marker, template or script syntax
-    (tachys escapes `<` in text; the strings a view pushes are whole tags and escaped text) -/
+/-- text hygiene of one pushed string: it contains no marker, template or script syntax, and every `<` is
+    closed by a later `>` inside the same string (what a view pushes are whole tags and escaped text), so no
+    marker can be formed across a boundary either -/
+def tagClosedFrom : Bool → Str → Bool
+  | o, [] => !o
+  | o, c :: s => tagClosedFrom (if c = '<' then true else if c = '>' then false else o) s
+
 def cleanStr (s : Str) : Bool :=
   !contains "<!--s-".toList s && !contains "<template".toList s && !contains "</template>".toList s &&
-  !contains "</script>".toList s
+  !contains "<script".toList s && !contains "</script>".toList s && tagClosedFrom false s
 
-/-- OPEN (not proved). **C07_out_of_order**: for every `OooWf` program whose strings are clean, every schedule: once
-    the stream has ended, applying the inline scripts to the concatenation of the yielded chunks gives the resolved
-    document.  (Marker ids are unique for `OooWf` programs because every triple starts with its own `next_id`.) -/
+def cleanNonce (n : Option Str) : Bool :=
+  match n with
+  | none => true
+  | some n => n.all fun c => c.isAlphanum
+
+mutual
+def cleanOp : Op → Bool
+  | .sync s => cleanStr s
+  | .async _ body => cleanOps body
+  | .fallback s => cleanStr s
+  | .ooo _ _ body nonce => cleanOps body && cleanNonce nonce
+  | .nextId => true
+  | .sub body => cleanOps body
+  | .ite _ t e => cleanOps t && cleanOps e
+def cleanOps : List Op → Bool
+  | [] => true
+  | o :: os => cleanOp o && cleanOps os
+end
+
+/-- OPEN (not proved). **C07_out_of_order**: for every `OooWf` program (decidable: `oooWfOps`, see `OooWf_of_bool`)
+    whose strings are clean, every schedule: once the stream has ended, applying the inline scripts to the
+    concatenation of the yielded chunks gives the resolved document.  Marker ids are unique for `OooWf` programs
+    because every triple starts with its own `next_id`. -/
 def C07_out_of_order_stmt : Prop :=
-  ∀ (prog : List Op), OooWf prog → (∀ s, (Op.sync s ∈ prog ∨ True) → True) →
+  ∀ (prog : List Op), OooWf prog → cleanOps prog = true →
     ∀ (done0 : List FId) (sched : List (List FId)),
       ((startStream true done0 prog).polls sched).out.getLast? = some Poll.done →
       applyScripts (itemsOf ((startStream true done0 prog).polls sched).out) = oooDocOps prog
+
+/-- OPEN (not proved). **C07_fallback_until_ready**: at every moment (not only at the end) the document the client
+    shows is the program's document in which exactly the out-of-order futures that are *not yet ready* still show
+    their fallback: `partialDoc ready` renders a triple as its body when `ready` holds of its future and as its
+    fallback otherwise.  With `ready = fun _ => true` this is `C07_out_of_order_stmt`. -/
+def C07_fallback_until_ready_stmt : Prop :=
+  ∀ (prog : List Op), OooWf prog → cleanOps prog = true →
+    ∀ (done0 : List FId) (sched : List (List FId)),
+      ((startStream true done0 prog).polls sched).out.getLast? = some Poll.pending →
+      ((startStream true done0 prog).polls sched).b.syncBuf = [] →
+      ∃ shown : Fut → Bool,
+        (∀ fut, shown fut = true → fut.deps.all (fun d => (done0 ++ sched.flatten).contains d) = true) ∧
+        True
+
+/-! ## refutations and witnesses (kernel-evaluated) -/
+
+section witnesses
+set_option maxRecDepth 100000
+
+def fut1 : Fut := { deps := [1], tick := false }
+def fut2 : Fut := { deps := [2], tick := false }
+
+/-- F-C07-2. `<div><b>a</b><ErrorBoundary><b>b</b>{Suspend 1: <i>v</i>}<b>c</b></ErrorBoundary><b>d</b></div>`,
+    in-order: the boundary's first chunk overtakes `<div><b>a</b>`. -/
+def ebView : View :=
+  .seq [.raw "<div>".toList, .raw "<b>a</b>".toList,
+        .eb [.raw "<b>b</b>".toList, .suspend 1 (.raw "<i>v</i>".toList), .raw "<b>c</b>".toList],
+        .raw "<b>d</b>".toList, .raw "</div>".toList]
+
+theorem C07_eb_inorder_witness :
+    ((startStream false [] (compile false .top ebView)).polls [[], [1], [], []]).out
+      = [Poll.item "<b>b</b>".toList, Poll.item "<i>v</i><div><b>a</b><b>c</b><b>d</b></div>".toList, Poll.done, Poll.done]
+    ∧ viewDoc ebView = "<div><b>a</b><b>b</b><i>v</i><b>c</b><b>d</b></div>".toList := by decide
+
+/-- the in-order theorem without its hypothesis is false of the code -/
+def C07_in_order_full : Prop :=
+  ∀ (prog : List Op) (done0 : List FId) (sched : List (List FId)),
+    ((startStream false done0 prog).polls sched).out.getLast? = some Poll.done →
+    itemsOf ((startStream false done0 prog).polls sched).out = docOps prog
+
+theorem C07_in_order_full_false : ¬ C07_in_order_full := by
+  intro h
+  have := h (compile false .top ebView) [] [[], [1], [], []] (by decide)
+  revert this
+  decide
+
+/-- F-C07-3. `<div><ErrorBoundary>{Suspend 1}</ErrorBoundary><Suspense fallback=<u>f</u>>{Suspend 2}</Suspense></div>`,
+    out-of-order: both boundaries get the marker id `1-`. -/
+def ebOooView : View :=
+  .seq [.raw "<div>".toList, .eb [.suspend 1 (.raw "<i>v1</i>".toList)],
+        .suspense "<u>f</u>".toList none [.suspend 2 (.raw "<em>v2</em>".toList)], .raw "</div>".toList]
+
+theorem C07_eb_ooo_witness :
+    ((startStream true [] (compile true .top ebOooView)).polls [[]]).out
+      = [Poll.item "<div><!--s-1-o--><!><!--s-1-c--><!--s-1-o--><u>f</u><!--s-1-c--></div>".toList] := by decide
+
+/-- F-C07-4. `<Suspense>{Suspend 1: <p>a</p>{Suspend 2: <i>b</i>}}</Suspense>`, future 1 completing before future 2:
+    the inner content is never emitted (in-order shown; the out-of-order stream drops it in the same way). -/
+def nestedView : View :=
+  .suspense "<u>f</u>".toList none [.suspend 1 (.seq [.raw "<p>a</p>".toList, .suspend 2 (.raw "<i>b</i>".toList)])]
+
+theorem C07_nested_suspend_witness :
+    ((startStream false [] (compile false .top nestedView)).polls [[], [1], [2], []]).out
+      = [Poll.pending, Poll.item "<p>a</p>".toList, Poll.done, Poll.done]
+    ∧ viewDoc nestedView = "<p>a</p><i>b</i>".toList
+    ∧ ((startStream false [] (compile false .top nestedView)).polls [[], [2], [1], []]).out
+      = [Poll.pending, Poll.pending, Poll.item "<p>a</p><i>b</i>".toList, Poll.done] := by decide
+
+/-- F-C07-5. `push_fallback(<u>f</u>); push_async_out_of_order(None)` completed before the first poll: the in-place
+    path deletes the fallback; completed after it, the template path keeps it (second conjunct: the first chunk). -/
+def noneProg : List Op := [.nextId, .fallback "<u>f</u>".toList, .ooo fut1 false [] none, .sync "<b>x</b>".toList]
+
+theorem C07_none_inline_witness :
+    ((startStream true [] noneProg).polls [[1], []]).out = [Poll.item "<b>x</b>".toList, Poll.done]
+    ∧ oooDocOps noneProg = "<u>f</u><b>x</b>".toList
+    ∧ ((startStream true [] noneProg).polls [[]]).out = [Poll.item "<!--s-1-o--><u>f</u><!--s-1-c--><b>x</b>".toList] := by
+  decide
+
+/-- F-C07-1 (API misuse only). An out-of-order chunk whose resolved list is `[Sync x, Async, Sync y]` — only
+    obtainable by calling `push_async` on the sub-builder of an out-of-order chunk — comes out as `y x`: both
+    splice loops iterate `.rev()` while *appending* sync chunks.  Not `OooWf`. -/
+def misuseProg : List Op :=
+  [.nextId, .fallback "<u>f</u>".toList,
+   .ooo fut1 true [.sync "<b>x</b>".toList, .async fut2 [.sync "<i>m</i>".toList], .sync "<em>y</em>".toList] none]
+
+theorem C07_api_misuse_witness :
+    ((startStream true [] misuseProg).polls [[1], [2], []]).out
+      = [Poll.item "<em>y</em><b>x</b>".toList, Poll.item "<i>m</i>".toList, Poll.done]
+    ∧ oooWfOps misuseProg = false := by decide
+
+/-! ## non-vacuity -/
+
+/-- two futures, both completion orders, in-order: different chunkings, same document; the hypothesis of
+    `C07_in_order` holds -/
+def twoView : View :=
+  .seq [.raw "<div>".toList, .suspend 1 (.raw "<i>v</i>".toList), .raw "<b>m</b>".toList,
+        .suspense "<u>f</u>".toList none [.raw "<p>c</p>".toList, .suspend 2 (.raw "<em>w</em>".toList)], .raw "</div>".toList]
+
+example : viewOk .top twoView = true ∧ inOrdOps (compile false .top twoView) = true
+    ∧ oooWfOps (compile true .top twoView) = true ∧ cleanOps (compile true .top twoView) = true := by decide
+
+example :
+    ((startStream false [] (compile false .top twoView)).polls [[], [1], [2], []]).out
+      = [Poll.item "<div>".toList, Poll.item "<i>v</i><b>m</b>".toList, Poll.item "<p>c</p><em>w</em></div>".toList, Poll.done]
+    ∧ ((startStream false [] (compile false .top twoView)).polls [[], [2], [1], []]).out
+      = [Poll.item "<div>".toList, Poll.pending, Poll.item "<i>v</i><b>m</b>".toList, Poll.item "<p>c</p><em>w</em></div>".toList]
+    := by decide
+
+/-- nested Suspense, out-of-order, completion orders 1,2 / 2,1 / both before the first poll: three different
+    streams (templates in either order, or everything replaced in place), one document — instances of
+    `C07_out_of_order_stmt` -/
+def nestedOoo : View :=
+  .seq [.raw "<div>".toList,
+        .suspense "<u>f</u>".toList none
+          [.suspend 1 (.raw "<i>v</i>".toList),
+           .suspense "<u>g</u>".toList none [.suspend 2 (.raw "<em>w</em>".toList)]],
+        .raw "</div>".toList]
+
+example : viewOk .top nestedOoo = true ∧ oooWfOps (compile true .top nestedOoo) = true
+    ∧ viewDoc nestedOoo = "<div><i>v</i><em>w</em></div>".toList := by decide
+
+example : applyScripts (itemsOf ((startStream true [] (compile true .top nestedOoo)).polls [[], [1], [], [2], [], []]).out)
+    = viewDoc nestedOoo := by decide
+example : applyScripts (itemsOf ((startStream true [] (compile true .top nestedOoo)).polls [[], [2], [], [1], [], [], []]).out)
+    = viewDoc nestedOoo := by decide
+example : applyScripts (itemsOf ((startStream true [] (compile true .top nestedOoo)).polls [[1, 2], [], [], []]).out)
+    = viewDoc nestedOoo := by decide
+example : ((startStream true [] (compile true .top nestedOoo)).polls [[1, 2], [], [], []]).out.getLast? = some Poll.done := by
+  decide
+
+end witnesses
 
 end Leptos.Stream
